@@ -417,6 +417,49 @@ func (s *Spec) advance(c *explore.State, dt time.Duration) {
 		ids = append(ids, id)
 	}
 	sort.Slice(ids, func(i, j int) bool { return ids[i] < ids[j] })
+	var ambiguous []map[string]sdkmath.Int // deposits of proposals whose refund-or-burn the text leaves open
+	defer func() {
+		if len(ambiguous) == 0 || c.Ctx.IsZero() {
+			return
+		}
+		// what each depositor's books lack after this step must be a sum of some of its ambiguous deposits (burned)
+		open := map[string]sdkmath.Int{}
+		_ = gk.Deposits.Walk(next, nil, func(key collectionsPair, d govv1.Deposit) (bool, error) {
+			cur, ok := open[d.Depositor]
+			if !ok {
+				cur = sdkmath.ZeroInt()
+			}
+			open[d.Depositor] = cur.Add(sdk.NewCoins(d.Amount...).AmountOf("FX"))
+			return false, nil
+		})
+		received := s.receivedSpends(next, m)
+		for _, d := range depositors {
+			init, _ := sdkmath.NewIntFromString(m.Init[d])
+			op, ok := open[w.A(d).Bech()]
+			if !ok {
+				op = sdkmath.ZeroInt()
+			}
+			burned, ok := sdkmath.NewIntFromString(m.Burned[d])
+			if !ok {
+				burned = sdkmath.ZeroInt()
+			}
+			resid := init.Add(received[d]).Sub(w.App.BankKeeper.GetBalance(next, w.A(d).Acc(), "FX").Amount).Sub(op).Sub(burned)
+			for mask := 0; mask < 1<<len(ambiguous); mask++ {
+				sum := sdkmath.ZeroInt()
+				for i, deps := range ambiguous {
+					if mask&(1<<i) != 0 {
+						if a, ok := deps[d]; ok {
+							sum = sum.Add(a)
+						}
+					}
+				}
+				if sum.Equal(resid) {
+					m.Burned[d] = burned.Add(resid).String()
+					break
+				}
+			}
+		}
+	}()
 	for _, id := range ids {
 		sn := before[id]
 		p := m.Props[id]
@@ -460,14 +503,10 @@ func (s *Spec) advance(c *explore.State, dt time.Duration) {
 		burn := vetoed && sn.turnout.GTE(q) && sn.turnout.GTE(qNow)
 		if vetoed && sn.turnout.GTE(q) != sn.turnout.GTE(qNow) {
 			// the quorum in force changed between activation and tally and the turnout lies in between: the text does not
-			// say which value counts, so the implementation's choice (refund or burn, for all depositors alike) is adopted
-			for d, amt := range sn.deposits {
-				if amt.IsPositive() {
-					got := w.App.BankKeeper.GetBalance(next, w.A(d).Acc(), "FX").Amount.Sub(preBal[d])
-					burn = !got.Equal(amt)
-					break
-				}
-			}
+			// say which value counts, so the implementation's choice (refund or burn) is adopted - read off the depositors'
+			// books after all proposals of this step have been looked at (several can end in one step)
+			burn = false
+			ambiguous = append(ambiguous, sn.deposits)
 		}
 		if burn {
 			for d, amt := range sn.deposits {
@@ -486,6 +525,24 @@ func (s *Spec) advance(c *explore.State, dt time.Duration) {
 			c.Violate("quorum-of-message-type", sig("tally-differs-from-type-quorum/"+p.Kind), fmt.Sprintf("proposal %d (%s): turnout %s, yes share %s, quorum configured for the type %s -> reference pass=%v, status %s", id, p.Type, sn.turnout, sn.yesShare, p.Quorum, refPass, prop.Status))
 		}
 	}
+}
+
+// receivedSpends: what the community-spend proposals that have passed paid to the depositors.
+func (s *Spec) receivedSpends(ctx sdk.Context, m *Model) map[string]sdkmath.Int {
+	received := map[string]sdkmath.Int{"u1": sdkmath.ZeroInt(), "u2": sdkmath.ZeroInt()}
+	for id, p := range m.Props {
+		prop, err := s.w.App.GovKeeper.Proposals.Get(ctx, id)
+		if err == nil && prop.Status == govv1.StatusPassed {
+			switch p.Kind {
+			case "spendSmall":
+				received["u2"] = received["u2"].Add(world.FX(1000))
+			case "spendLarge":
+				received["u2"] = received["u2"].Add(world.FX(200000))
+				received["u1"] = received["u1"].Add(world.FX(300000))
+			}
+		}
+	}
+	return received
 }
 
 func (s *Spec) Check(st *explore.State) {
